@@ -49,3 +49,16 @@ func (h *VerifHooks) TryLock() bool {
 	}
 	return false
 }
+
+// VerifManagerStore registers an engine built by the harness (with its own
+// game backend) under tableID, exactly as CreateTable stores the engines it
+// builds itself, so that the manager's forwarding methods can be driven
+// against an engine whose hand results the harness controls.
+func VerifManagerStore(m Manager, tableID string, engine TableEngine) bool {
+	mm, ok := m.(*manager)
+	if !ok {
+		return false
+	}
+	mm.tableEngines.Store(tableID, engine)
+	return true
+}
